@@ -1,6 +1,6 @@
 (* C09: streaming is transparent -- results independent of I/O fragmentation and faults. *)
 From Coq Require Import List NArith Lia Bool.
-From Rpgp Require Import Base.Octets Base.Res Sym.Cfb Sym.Seipd1Machine Sym.Seipd1MachineProofs Frame.Framing Frame.BodyReader Frame.BodyReaderProofs.
+From Rpgp Require Import Base.Octets Base.Res Sym.Cfb Sym.Seipd1Machine Sym.Seipd1MachineProofs Frame.Framing Frame.BodyReader Frame.BodyReaderProofs Aead.Seipd2 Aead.Seipd2Machine Aead.Seipd2MachineProofs.
 From Rpgp Require Import Io.Fill Io.FillProofs Armor.Base64 Armor.LineWriter Armor.LineWriterProofs Armor.B64Reader Armor.B64ReaderProofs.
 Import ListNotations.
 Open Scope N_scope.
@@ -66,3 +66,12 @@ Theorem C09_body_reader_request_independent : forall (req1 req2 : N -> N) h r,
   body_spec h r <> Err -> br_run req1 h r = br_run req2 h r.
 Proof. exact br_request_independent. Qed.
 Print Assumptions C09_body_reader_request_independent.
+
+(* the SEIPD v2 stream decryptor likewise *)
+Theorem C09_v2_decryptor_request_independent :
+  forall open c key iv info, 1 <= c ->
+    (forall k n a x pt, open k n a x = Some pt -> lenN pt + TAGLEN = lenN x) ->
+    forall (req1 req2 : N -> N) ct,
+      a_run open c key iv info req1 ct = a_run open c key iv info req2 ct.
+Proof. exact a_request_independent. Qed.
+Print Assumptions C09_v2_decryptor_request_independent.
